@@ -55,6 +55,10 @@ pub const TARGETS: &[FnTarget] = &[
     FnTarget { file: "vm.rs", owner: Some("Vm"), name: "jump_impl", lean: "vm_jump_impl", havoc: &[], ignore_cfg_features: &[] },
     FnTarget { file: "vm.rs", owner: Some("Vm"), name: "jump_if_false_impl", lean: "vm_jump_if_false_impl", havoc: &[], ignore_cfg_features: &[] },
     FnTarget { file: "vm.rs", owner: Some("Vm"), name: "loop_impl", lean: "vm_loop_impl", havoc: &[], ignore_cfg_features: &[] },
+    FnTarget { file: "vm.rs", owner: None, name: "find_index", lean: "store_find_index", havoc: &[], ignore_cfg_features: &[] },
+    FnTarget { file: "vm.rs", owner: Some("ObjStringStore"), name: "get", lean: "store_get", havoc: &[], ignore_cfg_features: &[] },
+    FnTarget { file: "vm.rs", owner: Some("ObjStringStore"), name: "adjust_capacity", lean: "store_adjust_capacity", havoc: &[], ignore_cfg_features: &[] },
+    FnTarget { file: "vm.rs", owner: Some("ObjStringStore"), name: "insert", lean: "store_insert", havoc: &[], ignore_cfg_features: &[] },
 ];
 
 pub struct FnBodies {
@@ -343,6 +347,7 @@ fn translate_one(srcs: &[Src], db: &TypeDb, consts: &BTreeMap<String, i128>, t: 
         let eff_init = if cx.has_effects { "let effs_ : List Rs.Eff := [];\n  " } else { "" };
         acc.defs.push_str(&format!("\n{}def {}{} : Rs.M {} :=\n  {}{}\n", doc, t.lean, sigtext, out_text, eff_init, body));
         let plain = cx.inputs.is_empty() && cx.written.is_empty() && !cx.has_effects && cx.cfg_inputs.is_empty() && !cx.loop_fuel && !cx.vm_mode;
+        let fuel_plain = cx.inputs.is_empty() && cx.written.is_empty() && !cx.has_effects && cx.cfg_inputs.is_empty() && cx.loop_fuel && !cx.vm_mode;
         let self_only = cx.inputs.len() == 1 && cx.inputs[0].0 == "self" && cx.written.is_empty() && !cx.has_effects && cx.cfg_inputs.is_empty() && !cx.loop_fuel && !cx.vm_mode;
         let key = match owner.as_deref() {
             Some("ObjFiber") => format!("fiber::{}", t.name),
@@ -357,6 +362,7 @@ fn translate_one(srcs: &[Src], db: &TypeDb, consts: &BTreeMap<String, i128>, t: 
             params: params.iter().map(|p| p.1.clone()).collect(),
             ret: cx.ret_ty.clone(),
             plain,
+            fuel_plain,
             self_only,
             self_paths,
             owner: owner.clone(),
